@@ -97,10 +97,13 @@ def hash (env : Env) : Nat → RT → List String → Option Int
       | some ps, some is => some (hashNumbers (hashString "object" :: ps.flatten ++ is.flatten))
       | _, _ => none
     | .ref name =>
-      if seen.contains name then some (hashString name)
-      else match env.lookup name with
-        | some t => hash env n t (name :: seen)
-        | none => none
+      match env.lookup name with
+      | some t =>
+        (match stripDesc t with
+          -- an alias of another named type is transparent: a back reference names the type, not the alias
+          | .ref _ => hash env n t seen
+          | _ => if seen.contains name then some (hashString name) else hash env n t (name :: seen))
+      | none => if seen.contains name then some (hashString name) else none
     | .described _ t => h t
 
 end RT
